@@ -479,10 +479,10 @@ def compare(ctx, c, I, rm):
             if c.kind == "bi" and flag == 1:
                 ctx.signal("O", sb + ":halfstep_nan", "half step s = r - alpha*A*p is exactly zero in iteration %d: omega = 0/0, "
                            "returned iterate / residual non-finite (res = %s)" % (mit + 1, [fl(v) for v in I.res][:6]), case=c.line)
-            elif c.kind == "pcg" and mit == 0 and Hm[0] == 0:
+            elif c.kind == "pcg" and mit == 0 and all(bi == yi for bi, yi in zip(c.b, matvec(c.n, c.trip, c.x0))):
                 ctx.signal("O", sb + ":exact_start_nan", "PCG started at the exact solution (r0 = 0): alpha = 0/0, the returned "
                            "iterate is non-finite (no initial convergence test)", case=c.line)
-            elif c.kind == "pcg" and all(v == 0 for v in c.b):
+            elif c.kind == "pcg" and all(v == 0 for v in c.b) and any(v != 0 for v in c.x0):
                 ctx.signal("O", sb + ":zero_rhs_nan", "PCG with b = 0: the reported residuals next_inner/b_inner divide by "
                            "<b, M b> = 0: res = %s" % ([fl(v) for v in I.res][:6],), case=c.line)
             else:
